@@ -817,6 +817,66 @@ pub fn gen(rng: &mut Rng, tier: &str) -> Vec<Line> {
     }
     v.push(tx_case_n(rng, s, n_pre, n_post));
   }
+  // ---- op 0: systematic sweeps (deterministic)
+  // (a) every taken tag at every acceptance boundary, inside an etching with terms
+  {
+    let common: [u128; 14] = [0, 1, 37, 38, 39, 255, 256, U32M - 1, U32M, U32M + 1, U64M, U64M + 1, u128::MAX - 1, u128::MAX];
+    let extra: [u128; 12] = [0x7ff_fffe, 0x7ff_ffff, 0x800_0000, 0xd7ff, 0xd800, 0xdfff, 0xe000, 0x10ffff, 0x110000, 2, 3, 4];
+    for tag in KNOWN_TAGS {
+      for val in common.iter().chain(extra.iter()) {
+        for flags in [3u128, 0] {
+          let ints: Vec<u128> = if tag == 20 { vec![2, flags, 20, *val, 20, 0] } else if tag == 2 { vec![2, *val] } else { vec![2, flags, tag, *val] };
+          let mut sc = vec![0x6a, 0x5d];
+          push_with(&mut sc, &varints(&ints), 0);
+          let mut l = L::new().p(0u8);
+          w_scripts(&mut l, &[sc.clone(), vec![0x51], vec![0x51], vec![0x51]]);
+          v.push(l.done());
+          if tag == 20 {
+            let ints = vec![2, flags, 20, 1, 20, *val];
+            let mut sc = vec![0x6a, 0x5d];
+            push_with(&mut sc, &varints(&ints), 0);
+            let mut l = L::new().p(0u8);
+            w_scripts(&mut l, &[sc]);
+            v.push(l.done());
+          }
+        }
+      }
+    }
+  }
+  // (b) every combination of violations: message-structure flaw kind x supply overflow x
+  //     unrecognized flag x unrecognized even tag, with / without rune name and mint
+  for msg in 0..5u32 {
+    for bits in 0..32u32 {
+      let (supply, flag, even, rune, mint) = (bits & 1 != 0, bits & 2 != 0, bits & 4 != 0, bits & 8 != 0, bits & 16 != 0);
+      let mut ints: Vec<u128> = vec![2, 3 | if flag { 1 << 100 } else { 0 }];
+      if rune {
+        ints.extend_from_slice(&[4, 12345]);
+      }
+      if supply {
+        ints.extend_from_slice(&[6, u128::MAX, 8, 1, 10, 1]);
+      } else {
+        ints.extend_from_slice(&[6, u128::MAX - 1, 8, 1, 10, 1]);
+      }
+      if mint {
+        ints.extend_from_slice(&[20, 7, 20, 3]);
+      }
+      if even {
+        ints.extend_from_slice(&[126, 0]);
+      }
+      match msg {
+        1 => ints.push(22),
+        2 => ints.extend_from_slice(&[0, 1, 1, 5, 0, 9]),
+        3 => ints.extend_from_slice(&[0, 1, 1, 5, 0, 0, 1, 5, 0]),
+        4 => ints.extend_from_slice(&[0, 1, 1, 5, 0, 1, 1, 5, 2]),
+        _ => {}
+      }
+      let mut sc = vec![0x6a, 0x5d];
+      push_with(&mut sc, &varints(&ints), 0);
+      let mut l = L::new().p(0u8);
+      w_scripts(&mut l, &[sc]);
+      v.push(l.done());
+    }
+  }
   // ---- op 0: random scripts
   for _ in 0..5_000 * scale {
     let s = random_script(rng);
@@ -851,7 +911,7 @@ pub fn gen(rng: &mut Rng, tier: &str) -> Vec<Line> {
     v.push(l.done());
   }
   for _ in 0..300 {
-    let n = rng.below(600) as usize;
+    let n = if rng.chance(1, 4) { *rng.pick(&[75usize, 76, 255, 256, 257]) } else { rng.below(600) as usize };
     let mut l = L::new().p(3u8);
     l.raw(&rng.bytes(n));
     v.push(l.done());
